@@ -141,6 +141,7 @@ type target struct {
 	module    string   // Coq file name (without .v)
 	prefix    string   // prefix of the Coq definitions
 	immutable []string // fields written by the constructor only
+	waits     bool     // emit AWait for operations that can wait for a peer or another goroutine
 }
 
 type frame struct {
@@ -165,6 +166,31 @@ type walker struct {
 	// access to the field
 	refFields map[string]bool
 	alias     map[*ast.Object]string
+	waits     bool
+}
+
+// calls that can wait for a peer (or for time to pass): by method / function name
+var waitingCalls = map[string]bool{
+	"Accept": true, "Read": true, "ReadFull": true, "ReadAtLeast": true, "ReadFrom": true, "Write": true, "WriteTo": true,
+	"ReadRequest": true, "WriteResponse": true, "ExecuteRequest": true,
+	"Handshake": true, "HandshakeContext": true, "Sleep": true, "Wait": true,
+	"Dial": true, "DialTimeout": true, "DialContext": true, "DialWithDialer": true,
+}
+
+// waitName: the call x can wait for a peer / another goroutine / the user's handler
+func (w *walker) waitName(x *ast.CallExpr) (string, bool) {
+	if !w.waits {
+		return "", false
+	}
+	if sel, ok := x.Fun.(*ast.SelectorExpr); ok {
+		if f, ok := w.recvField(sel.X); ok && f == "handler" {
+			return "handler." + sel.Sel.Name, true
+		}
+		if waitingCalls[sel.Sel.Name] && !(w.isRecv(sel.X) && w.methods[sel.Sel.Name]) {
+			return sel.Sel.Name, true
+		}
+	}
+	return "", false
 }
 
 // aliasOf: e evaluates to (a reslicing of) a shared slice / map field, or to a
@@ -329,6 +355,9 @@ func (w *walker) expr(e ast.Expr) []*sp {
 	case *ast.CallExpr:
 		return w.call(x)
 	case *ast.UnaryExpr:
+		if x.Op == token.ARROW && w.waits {
+			return append(w.expr(x.X), act("AWait "+coqStr("channel receive")))
+		}
 		if x.Op == token.AND {
 			if f, ok := w.baseField(x.X); ok && (w.tracked[f] || f == w.lockField) {
 				return []*sp{irregular("address of " + f + " taken")}
@@ -406,7 +435,11 @@ func (w *walker) call(x *ast.CallExpr) []*sp {
 		}
 	}
 	out := w.expr(x.Fun)
-	return append(out, w.exprs(x.Args)...)
+	out = append(out, w.exprs(x.Args)...)
+	if n, ok := w.waitName(x); ok {
+		out = append(out, act("AWait "+coqStr(n)))
+	}
+	return out
 }
 
 // baseField peels selectors / indexing / dereferences down to recv.f
@@ -542,7 +575,11 @@ func (w *walker) stmt(s ast.Stmt, top bool) *sp {
 		p, q := w.target(x.X)
 		return seq(append(p, q...)...)
 	case *ast.SendStmt:
-		return seq(append(w.expr(x.Chan), w.expr(x.Value)...)...)
+		out := append(w.expr(x.Chan), w.expr(x.Value)...)
+		if w.waits {
+			out = append(out, act("AWait "+coqStr("channel send")))
+		}
+		return seq(out...)
 	case *ast.ReturnStmt:
 		out := w.exprs(x.Results)
 		return seq(append(out, act("ARet"))...)
@@ -623,6 +660,9 @@ func (w *walker) stmt(s ast.Stmt, top bool) *sp {
 		out := []*sp{w.stmt(x.Init, false), w.stmt(x.Assign, false)}
 		return seq(append(out, w.clauses(x.Body)...)...)
 	case *ast.SelectStmt:
+		if w.waits {
+			return seq(append([]*sp{act("AWait " + coqStr("select"))}, w.clauses(x.Body)...)...)
+		}
 		return seq(w.clauses(x.Body)...)
 	case *ast.ForStmt:
 		init := w.stmt(x.Init, false)
@@ -807,7 +847,7 @@ func extract(repo string, tg target) (string, error) {
 	var ms []method
 	for _, fd := range decls {
 		w := &walker{lockField: lockField, tracked: tracked, immutable: immutable, methods: methods, spawned: spawned,
-			refFields: refFields, alias: map[*ast.Object]string{}}
+			refFields: refFields, alias: map[*ast.Object]string{}, waits: tg.waits}
 		if names := fd.Recv.List[0].Names; len(names) == 1 {
 			w.recv = names[0].Obj
 			w.recvName = names[0].Name
@@ -910,7 +950,7 @@ func main() {
 		{file: "client.go", typeName: "ModbusClient", module: "ClientLocks", prefix: "client",
 			immutable: []string{"conf", "logger", "transportType"}},
 		{file: "server.go", typeName: "ModbusServer", module: "ServerLocks", prefix: "server",
-			immutable: []string{"conf", "logger", "transportType", "handler"}},
+			immutable: []string{"conf", "logger", "transportType", "handler"}, waits: true},
 	}
 	if err := os.MkdirAll(out, 0755); err != nil {
 		fmt.Fprintln(os.Stderr, err)
